@@ -146,6 +146,196 @@ theorem shortBasis_ordered {q : Int} {m r : M2} (h : shortBasis q m = some r) :
     · show normV q e.st.b ≤ normV q e.st.a
       rw [← h2, ← h1]; exact h3
 
+/-! ### Gauss-reducedness of the output -/
+
+theorem roundedDiv_spec (a b : Int) (hb : 0 < b) :
+    2 * (a - roundedDiv a b * b) ≤ b ∧ -b ≤ 2 * (a - roundedDiv a b * b) := by
+  have h1 : b * Int.tdiv a b + Int.tmod a b = a := Int.mul_tdiv_add_tmod a b
+  unfold roundedDiv
+  rcases Int.lt_or_le a 0 with ha | ha
+  · have hna : 0 ≤ -a := by omega
+    have hr1 : Int.tmod a b ≤ 0 := by
+      have := Int.tmod_nonneg b hna
+      rw [Int.neg_tmod] at this
+      omega
+    have hr2 : -b < Int.tmod a b := by
+      have := Int.tmod_lt_of_pos (-a) hb
+      rw [Int.neg_tmod] at this
+      omega
+    have hab : a * b < 0 := Int.mul_neg_of_neg_of_pos ha hb
+    simp only [hab, if_true]
+    split
+    · rename_i h
+      have : (Int.tdiv a b - 1) * b = b * Int.tdiv a b - b := by ring
+      omega
+    · rename_i h
+      have : (Int.tdiv a b) * b = b * Int.tdiv a b := by ring
+      omega
+  · have hr1 : 0 ≤ Int.tmod a b := Int.tmod_nonneg b ha
+    have hr2 : Int.tmod a b < b := Int.tmod_lt_of_pos a hb
+    have hab : ¬ a * b < 0 := by
+      have := Int.mul_nonneg ha (Int.le_of_lt hb); omega
+    simp only [hab, if_false]
+    split
+    · rename_i h
+      have : (Int.tdiv a b + 1) * b = b * Int.tdiv a b + b := by ring
+      omega
+    · rename_i h
+      have : (Int.tdiv a b) * b = b * Int.tdiv a b := by ring
+      omega
+
+/-- if subtracting `r·b` does not shorten `a` (`N(a - r b) ≥ N(a)`, r the rounded quotient) then `a` is already
+    reduced against `b` -/
+theorem no_gain_reduced (n nb r : Int) (hnb : 0 < nb) (h1 : 2 * (n - r * nb) ≤ nb) (h2 : -nb ≤ 2 * (n - r * nb))
+    (h3 : 0 ≤ r * r * nb - 2 * n * r) : 2 * n ≤ nb ∧ -nb ≤ 2 * n := by
+  rcases Int.lt_trichotomy r 0 with hr | hr | hr
+  · -- r ≤ -1
+    have h4 : r * nb - 2 * n ≤ 0 := by
+      by_contra hneg
+      have hpos : 0 < r * nb - 2 * n := by omega
+      have : r * (r * nb - 2 * n) < 0 := Int.mul_neg_of_neg_of_pos hr hpos
+      nlinarith
+    have h5 : -nb ≤ r * nb := by linarith
+    have h6 : -1 ≤ r := by
+      by_contra hc
+      have : r ≤ -2 := by omega
+      nlinarith
+    have : r = -1 := by omega
+    subst this
+    constructor <;> linarith
+  · subst hr
+    constructor <;> linarith
+  · have h4 : 0 ≤ r * nb - 2 * n := by
+      by_contra hneg
+      have hneg' : r * nb - 2 * n < 0 := by omega
+      have : r * (r * nb - 2 * n) < 0 := Int.mul_neg_of_pos_of_neg hr hneg'
+      nlinarith
+    have h5 : r * nb ≤ nb := by linarith
+    have h6 : r ≤ 1 := by
+      by_contra hc
+      have : 2 ≤ r := by omega
+      nlinarith
+    have : r = 1 := by omega
+    subst this
+    constructor <;> linarith
+
+theorem normV_nonneg {q : Int} (hq : 0 ≤ q) (v : V2) : 0 ≤ normV q v := by
+  unfold normV norm
+  exact Int.add_nonneg (mul_self_nonneg _) (Int.mul_nonneg (mul_self_nonneg _) hq)
+
+theorem bil_sub_smul (q : Int) (a b : V2) (r : Int) :
+    bilV q (a.sub (V2.smul r b)) b = bilV q a b - r * normV q b := by
+  simp only [normV, bilV, norm, bil, V2.sub, V2.smul]; ring
+
+/-- the output `(b, a')` of `quat_dim2_lattice_short_basis` is Gauss-reduced: `|2<a',b>| ≤ N(b)` (with
+    `shortBasis_ordered`: `N(b) ≤ N(a')`) -/
+theorem shortBasis_gauss_reduced {q : Int} (hq : 0 ≤ q) {m r : M2} (h : shortBasis q m = some r) :
+    2 * bilV q r.col1 r.col0 ≤ normV q r.col0 ∧ -normV q r.col0 ≤ 2 * bilV q r.col1 r.col0 := by
+  unfold shortBasis at h
+  cases hl : sbLoop q (shortBasisFuel q m) (sbInit q m) with
+  | none => rw [hl] at h; simp at h
+  | some e =>
+    rw [hl] at h
+    simp only [Option.map_some, Option.some.injEq] at h
+    subst h
+    obtain ⟨⟨h1, h2, h3⟩, h4, hr, h5, h6⟩ := normsOK_loop q _ _ e hl (normsOK_init q m)
+    have hnb : 0 < normV q e.st.b := by
+      have := normV_nonneg hq e.st.b
+      rw [h2] at h4
+      omega
+    have spec := roundedDiv_spec (bilV q e.st.a e.st.b) (normV q e.st.b) hnb
+    rw [h2] at hr
+    rw [← hr] at spec
+    unfold sbFinish
+    split
+    · show 2 * bilV q (e.st.a.sub (V2.smul e.r e.st.b)) e.st.b ≤ normV q e.st.b ∧
+        -normV q e.st.b ≤ 2 * bilV q (e.st.a.sub (V2.smul e.r e.st.b)) e.st.b
+      rw [bil_sub_smul]
+      exact spec
+    · rename_i hge
+      show 2 * bilV q e.st.a e.st.b ≤ normV q e.st.b ∧ -normV q e.st.b ≤ 2 * bilV q e.st.a e.st.b
+      have hnt : e.nt = e.st.na - 2 * bilV q e.st.a e.st.b * e.r + e.r * e.r * normV q e.st.b := by
+        rw [h5, norm_sub_smul, ← h1]
+      apply no_gain_reduced (bilV q e.st.a e.st.b) (normV q e.st.b) e.r hnb spec.1 spec.2
+      have : e.st.na ≤ e.nt := Int.not_lt.mp hge
+      rw [hnt] at this
+      linarith
+
+/-! ### termination: for independent columns and q > 0 the loop returns within the model's fuel -/
+def detCols (a b : V2) : Int := a.x * b.y - b.x * a.y
+
+theorem normV_pos_of_ne {q : Int} (hq : 0 < q) (v : V2) (hv : v.x ≠ 0 ∨ v.y ≠ 0) : 0 < normV q v := by
+  unfold normV norm
+  rcases hv with h | h
+  · have : 0 < v.x * v.x := by
+      rcases Int.lt_or_gt_of_ne h with h' | h'
+      · exact Int.mul_pos_of_neg_of_neg h' h'
+      · exact Int.mul_pos h' h'
+    have : 0 ≤ v.y * v.y * q := Int.mul_nonneg (mul_self_nonneg _) (Int.le_of_lt hq)
+    omega
+  · have h2 : 0 < v.y * v.y := by
+      rcases Int.lt_or_gt_of_ne h with h' | h'
+      · exact Int.mul_pos_of_neg_of_neg h' h'
+      · exact Int.mul_pos h' h'
+    have : 0 < v.y * v.y * q := Int.mul_pos h2 hq
+    have : 0 ≤ v.x * v.x := mul_self_nonneg _
+    omega
+
+theorem ne_of_det {a b : V2} (h : detCols a b ≠ 0) : b.x ≠ 0 ∨ b.y ≠ 0 := by
+  by_contra hc
+  push_neg at hc
+  apply h
+  unfold detCols
+  rw [hc.1, hc.2]; ring
+
+theorem sbLoop_terminates {q : Int} (hq : 0 < q) : ∀ (fuel : Nat) (s : SBState),
+    NormsOK q s → detCols s.a s.b ≠ 0 → s.nb.toNat < fuel → (sbLoop q fuel s).isSome = true := by
+  intro fuel
+  induction fuel with
+  | zero => intro s _ _ h; omega
+  | succ n ih =>
+    intro s hn hd hf
+    obtain ⟨h1, h2, h3⟩ := hn
+    have hpos : 0 < s.nb := by rw [h2]; exact normV_pos_of_ne hq _ (ne_of_det hd)
+    simp only [sbLoop]
+    split
+    · omega
+    · split
+      · rename_i hlt
+        have hnt : s.na - 2 * bilV q s.a s.b * roundedDiv (bilV q s.a s.b) s.nb
+            + roundedDiv (bilV q s.a s.b) s.nb * roundedDiv (bilV q s.a s.b) s.nb * s.nb
+            = normV q (s.a.sub (V2.smul (roundedDiv (bilV q s.a s.b) s.nb) s.b)) := by
+          rw [norm_sub_smul, ← h1, ← h2]
+        apply ih
+        · exact ⟨h2, hnt, Int.le_of_lt hlt⟩
+        · show detCols s.b (s.a.sub (V2.smul _ s.b)) ≠ 0
+          have : detCols s.b (s.a.sub (V2.smul (roundedDiv (bilV q s.a s.b) s.nb) s.b)) = -detCols s.a s.b := by
+            simp only [detCols, V2.sub, V2.smul]; ring
+          rw [this]; omega
+        · show (s.na - 2 * bilV q s.a s.b * roundedDiv (bilV q s.a s.b) s.nb
+            + roundedDiv (bilV q s.a s.b) s.nb * roundedDiv (bilV q s.a s.b) s.nb * s.nb).toNat < n
+          have hge : 0 ≤ s.na - 2 * bilV q s.a s.b * roundedDiv (bilV q s.a s.b) s.nb
+            + roundedDiv (bilV q s.a s.b) s.nb * roundedDiv (bilV q s.a s.b) s.nb * s.nb := by
+            rw [hnt]; exact normV_nonneg (Int.le_of_lt hq) _
+          omega
+      · rfl
+
+/-- **total correctness of the Gauss loop**: for q > 0 and linearly independent input columns the routine returns
+    (the model's fuel suffices; the C loop terminates because `norm_b` strictly decreases in ℕ). -/
+theorem shortBasis_terminates {q : Int} (hq : 0 < q) {m : M2} (hd : m.det ≠ 0) : (shortBasis q m).isSome = true := by
+  unfold shortBasis
+  rw [Option.isSome_map]
+  apply sbLoop_terminates hq _ _ (normsOK_init q m)
+  · simp only [sbInit]
+    split
+    · show detCols m.col1 m.col0 ≠ 0
+      have : detCols m.col1 m.col0 = -m.det := by simp only [detCols, M2.col0, M2.col1, M2.det]; ring
+      rw [this]; omega
+    · show detCols m.col0 m.col1 ≠ 0
+      have : detCols m.col0 m.col1 = m.det := by simp only [detCols, M2.col0, M2.col1, M2.det]
+      rw [this]; exact hd
+  · unfold shortBasisFuel; omega
+
 /-! ### closest vector: the residual differs from the target by a lattice vector -/
 theorem closestVector_lattice {q : Int} {rb : M2} {t : V2} {o : CvpOut} (h : closestVector q rb t = some o) :
     t.sub o.tmc = rb.eval o.coords := by
